@@ -318,6 +318,27 @@ def run_call(pool, call, res):
             out['value'] = vals
             out['ready'] = [a.ready() for a in asyncs]
             out['callbacks'] = log
+        elif kind == 'apply_burst':
+            # many quick apply tasks without a timeout (the job cache grows and shrinks all the time), then one task that
+            # overruns a timeout by far
+            gates = [pool.apply_async(userfuncs.gate, (call.get('gate', 1.0),)) for _ in range(pool.pool_params.n_jobs)]
+            rs = [pool.apply_async(userfuncs.quick, (i,)) for i in range(call['burst'])]
+            for g in gates:
+                g.get(timeout=60)
+            bad = sum(1 for i, r in enumerate(rs) if r.get(timeout=120) != i)
+            del rs
+            time.sleep(2 * call['timeout'])
+            t1 = time.time()
+            r = pool.apply_async(userfuncs.gate, (60,), task_timeout=call['timeout'])
+            r.wait(call.get('max_wait', 10))
+            out['burst'] = {'wrong': bad, 'ready': r.ready(), 'elapsed': time.time() - t1}
+            if r.ready():
+                try:
+                    r.get()
+                    out['burst']['result'] = 'returned'
+                except BaseException as e:      # noqa
+                    out['burst']['result'] = type(e).__name__
+            pool.terminate()
         elif kind == 'lookahead':
             # counting wrappers around the input generator and the consumer loop
             n = call['n']
@@ -359,8 +380,14 @@ def run_call(pool, call, res):
             out['value'] = None
         elif kind == 'stop_and_join':
             pool.stop_and_join()
+            if call.get('snapshot_after'):
+                time.sleep(0.1)
+                out['after_call'] = leak_snapshot()
         elif kind == 'terminate':
             pool.terminate()
+            if call.get('snapshot_after'):
+                time.sleep(0.1)
+                out['after_call'] = leak_snapshot()
         elif kind == 'sleep':
             time.sleep(call['s'])
         elif kind == 'touch':
